@@ -30,6 +30,9 @@ func init() { register("C20", checkC20) }
 //
 //	the stored data slice is freshly allocated at construction.
 func checkC20(p *Program, r *Report) {
+	// round 6 (systematic): no unguarded mutable package-level state behind this property's functions (§2.9)
+	sharedStateRule(p, r, NewEffects(p), "C20.shared", []string{"bloom/filter.go", "gcs/gcs.go"})
+	r.Floor("C20.shared", 0)
 	r.Explain = "Lockset analysis over all paths of every function that touches bloom.Filter's guarded state " +
 		"(C20.guarded), every unexported helper that requires the lock is only called with it held, in the mode it needs (C20.required), critical-section shape of every exported method (C20.section), no re-entrant acquisition " +
 		"(C20.reentry), and an effect analysis showing gcs.Filter methods never write receiver-reachable memory " +
